@@ -103,17 +103,34 @@ def execute(case: Dict[str, Any], M: Optional[Model] = None, built: Any = None, 
 
     M = M or Model(case)
     P = case["prog"]
+    derive = case.get("derive")
     out = Outcome()
     args = [dec(a) for a in case.get("args", [])]
-    if case.get("derive") == "cache" and built is None and pre is None:
+    cin: List[str] = list(case.get("compose_inputs") or []) if derive == "compose" else []
+    if derive == "cache" and built is None and pre is None:
         # the observed run restarts from a cache file written by an earlier (unobserved) run restricted to some
         # targets: those sites and their ancestors are taken from the file, everything else is scheduled as usual
+        # (written with cache_deps_of=[...] the file holds the ancestors but not the named sites themselves)
         R0 = prog.Ref()
-        prog.ref_run(P, args, R0)
+        try:
+            prog.ref_run(P, args, R0)
+        except (prog.RefError, prog.MissingArg, KeyError, IndexError):
+            derive = None  # the program raises by itself (a bad index ...): run it plainly
         keep: Set[str] = set()
         for t_ in case.get("cached", []):
             keep |= {t_} | M.anc[t_]
-        pre = {s: R0.values[s] for s in keep}
+        if case.get("cache_kind") == "deps_of":
+            keep -= set(case.get("cached", []))
+        pre = {s: R0.values[s] for s in keep} if derive else None
+    elif cin and built is None and pre is None:
+        # compose(inputs=<some sites without dependencies>, outputs=<all other sites>), called with the values those
+        # sites would have produced: every other site computes what it computes in the described DAG
+        R0 = prog.Ref()
+        try:
+            prog.ref_run(P, args, R0)
+            pre = {s: R0.values[s] for s in cin}
+        except (prog.RefError, prog.MissingArg, KeyError, IndexError):
+            derive, cin = None, []
     R = prog.Ref(failing=case.get("failing", ()), selected=M.selected, run_debug=bool(case.get("debug")), pre=pre)
     try:
         out.ref_value = prog.ref_run(P, args, R)
@@ -171,17 +188,20 @@ def execute(case: Dict[str, Any], M: Optional[Model] = None, built: Any = None, 
                 for s, q in (case.get("reconf_seq") or {}).items():
                     nodes.setdefault(s.lstrip(prog.MARK), {})["is_sequential"] = q
                 b.dag.config_from_dict({"nodes": nodes})
-            if built is None and case.get("derive") == "deepcopy":
+            if built is None and derive == "deepcopy":
                 import copy as _copy
 
                 b = prog.Built(b.prog, _copy.deepcopy(b.dag), b.xns, b.subs)  # a deep copy is a DAG like the original
-            elif built is None and case.get("derive") == "compose":
+            elif built is None and derive == "compose":
                 # compose() without inputs and with every site as output: the same computation, a derived DAG object
                 ids_ = b.node_ids()
-                b = prog.Built(b.prog, b.dag.compose("CMP", [], [ids_[s] for s in M.sites], max_concurrency=M.mc), b.xns, b.subs)
+                b = prog.Built(b.prog, b.dag.compose("CMP", [ids_[s] for s in cin], [ids_[s] for s in M.sites if s not in cin],
+                                                     max_concurrency=M.mc), b.xns, b.subs)
+                if cin:
+                    args = [pre[s] for s in cin]  # type: ignore[index]
             out.built = b
             target: Any = b.dag
-            if case.get("derive") == "cache" and built is None:
+            if derive == "cache" and built is None:
                 import os
                 import tempfile
 
@@ -189,7 +209,9 @@ def execute(case: Dict[str, Any], M: Optional[Model] = None, built: Any = None, 
                 os.close(fd)
                 try:
                     ids_ = b.node_ids()
-                    first = b.dag.executor(target_nodes=[ids_[s] for s in case.get("cached", [])], cache_in=cpath)
+                    named = [ids_[s] for s in case.get("cached", [])]
+                    first = (b.dag.executor(cache_deps_of=named, cache_in=cpath) if case.get("cache_kind") == "deps_of"
+                             else b.dag.executor(target_nodes=named, cache_in=cpath))
                     if case.get("async"):
                         asyncio.run(first(*args))
                     else:
@@ -199,7 +221,7 @@ def execute(case: Dict[str, Any], M: Optional[Model] = None, built: Any = None, 
                 except BaseException:
                     os.remove(cpath)
                     raise
-            if case.get("derive") == "executor" and not (case.get("sel") and any(case["sel"].get(k) is not None for k in "TXR")) \
+            if derive == "executor" and not (case.get("sel") and any(case["sel"].get(k) is not None for k in "TXR")) \
                     and case.get("call") != "setup":
                 target = b.dag.executor()  # dag.executor()(...) instead of dag(...)
             sel = case.get("sel")
@@ -247,6 +269,10 @@ def execute(case: Dict[str, Any], M: Optional[Model] = None, built: Any = None, 
                     out.value = asyncio.run(main())
                 else:
                     out.value = target(*args)
+                if cin and isinstance(out.value, tuple):
+                    # put the supplied input values back at their positions: one entry per site, as in the reference
+                    it = iter(out.value)
+                    out.value = tuple(pre[s] if s in cin else next(it) for s in M.sites)  # type: ignore[index]
         except BaseException as e:  # noqa: BLE001
             if isinstance(e, KeyboardInterrupt):
                 raise
